@@ -142,11 +142,17 @@ pub fn lex(source: &str, source_filename: &str) -> Vec<LexedToken>
 {
 	let mut tokens = Vec::new();
 	let mut offset = 0;
+	let mut byte_offset = 0;
 	for (i, line) in source.lines().enumerate()
 	{
 		// Syntax should remain such that each line can be lexed independently.
 		lex_line(line, source_filename, offset, 1 + i, &mut tokens);
-		offset += line.chars().count() + 1;
+		// The line ending that `lines()` removed is one or two characters.
+		byte_offset += line.len();
+		let len_of_line_ending =
+			if source[byte_offset..].starts_with("\r\n") { 2 } else { 1 };
+		byte_offset += len_of_line_ending;
+		offset += line.chars().count() + len_of_line_ending;
 	}
 	if source.len() == 0
 	{
